@@ -16,6 +16,7 @@ import (
 	"go.miragespace.co/specter/spec/tun"
 	"go.miragespace.co/specter/util"
 	"go.miragespace.co/specter/util/acceptor"
+	"go.miragespace.co/specter/util/verifhook"
 
 	"github.com/Yiling-J/theine-go"
 	"github.com/zeebo/xxh3"
@@ -162,6 +163,7 @@ func (c *Client) Start(ctx context.Context) {
 func (c *Client) handleIncomingDelegation(ctx context.Context, link *protocol.Link, delegation net.Conn) error {
 	hostname := link.GetHostname()
 	u, ok := c.Configuration.router.Load(hostname)
+	verifhook.At("client:conn:routed", 0)
 	if !ok {
 		c.Logger.Error("Unknown hostname in connection", zap.String("hostname", hostname))
 		delegation.Close()
